@@ -197,6 +197,13 @@ def create_padding(cmd: NpuStripe, primary_op: Operation, npu_op: NpuBlockOperat
             channels=cmd.ps.ifm_shapes[0].depth,
             dtype=cmd.ifm_tensor.dtype,
         )
+        # The aliased tiles make the padded rows/columns part of the feature map the hardware traverses
+        pad_top, pad_left, pad_bottom, pad_right = primary_op.attrs["explicit_padding"]
+        npu_op.ifm.shape = NpuShape3D(
+            height=npu_op.ifm.shape.height + pad_top + pad_bottom,
+            width=npu_op.ifm.shape.width + pad_left + pad_right,
+            depth=npu_op.ifm.shape.depth,
+        )
         top, left, bottom, right = 0, 0, 0, 0
 
     return NpuPadding(top=top, left=left, bottom=bottom, right=right)
